@@ -18,6 +18,7 @@ import (
 
 const c06Policy = `
 path "rb/*" { capabilities = ["create","read","update","delete","list"] }
+path "ns1/rb/*" { capabilities = ["create","read","update","delete","list"] }
 path "auth/token/create" { capabilities = ["update"] }
 path "auth/token/create/*" { capabilities = ["update"] }
 `
@@ -98,7 +99,7 @@ func (w *c06World) fork() *c06World {
 	return &c06World{t: w.t, tc: n, hub: w.hub, parent: w.parent, limTok: w.limTok, batchTok: w.batchTok, ns1: w.ns1, nsTok: w.nsTok}
 }
 
-var c06Kinds = []string{"secret", "secret-odd-path", "secret-batch-child", "secret-in-namespace", "secret-wrapped", "secret-uselimited", "login", "login-wrapped", "create", "create-role", "create-role-path-suffix", "create-orphan", "create-wrapped"}
+var c06Kinds = []string{"secret", "secret-odd-path", "secret-batch-child", "secret-in-namespace", "secret-in-namespace-parent-token", "secret-wrapped", "secret-uselimited", "login", "login-wrapped", "create", "create-role", "create-role-path-suffix", "create-orphan", "create-wrapped"}
 
 func (w *c06World) request(kind string) rr { return w.requestCtx(kind, w.tc.ctx) }
 
@@ -119,6 +120,9 @@ func (w *c06World) requestCtx(kind string, base context.Context) rr {
 		return tc.do(&logical.Request{Operation: logical.ReadOperation, Path: "rb/creds/a", ClientToken: w.batchTok})
 	case "secret-in-namespace":
 		return tc.doCtx(namespace.ContextWithNamespace(base, w.ns1), &logical.Request{Operation: logical.ReadOperation, Path: "rb/creds/a", ClientToken: w.nsTok})
+	case "secret-in-namespace-parent-token":
+		// a token of the parent (root) namespace takes a secret from a mount of the child namespace
+		return tc.doCtx(namespace.ContextWithNamespace(base, w.ns1), &logical.Request{Operation: logical.ReadOperation, Path: "rb/creds/a", ClientToken: w.parent})
 	case "secret-wrapped":
 		return tc.do(wrap(&logical.Request{Operation: logical.ReadOperation, Path: "rb/creds/a", ClientToken: w.parent}))
 	case "secret-uselimited":
@@ -206,7 +210,12 @@ func (w *c06World) invariant(tokensBefore map[string]bool) (string, string) {
 			continue
 		}
 		for _, id := range ids {
-			l, err := exp.loadEntry(ctx, id)
+			lctx := ctx
+			if w.ns1 != nil && strings.HasSuffix(id, "."+w.ns1.ID) {
+				// the lease lives in the child namespace (its id carries that namespace's suffix)
+				lctx = namespace.ContextWithNamespace(context.Background(), w.ns1)
+			}
+			l, err := exp.loadEntry(lctx, id)
 			if err == nil && l == nil {
 				return "index-without-lease", fmt.Sprintf("token index of %s names lease %s which has no lease record", verifx.Trunc(salted, 12), id)
 			}
@@ -537,7 +546,7 @@ func pickKsPhase(n, max, phase int) []int {
 // c06Outcome checks what must hold when the client received the credentials.
 func c06Outcome(w *c06World, kind string, r rr) (string, string) {
 	ctx := namespace.RootContext(w.tc.ctx)
-	if kind == "secret-in-namespace" {
+	if strings.HasPrefix(kind, "secret-in-namespace") {
 		ctx = namespace.ContextWithNamespace(context.Background(), w.ns1)
 	}
 	exp := w.tc.c.expiration
